@@ -24,6 +24,7 @@ func checkC07(p *Prog, r *Report) {
 	c07CounterSigns(p, r)
 	// "finite": the partial operations of the nitrogen routines stay inside their domains (shared machinery with C06.R6)
 	domainRule(p, r, "C07.R7", "the nitrogen routines (denitrification, mineralisation, transport, daily bookkeeping) and the set-up of the organic N pools from the soil description", []string{"hermes.Denitr", "hermes.Denitmo", "hermes.mineral", "hermes.nmove", "hermes.Nitro", "hermes.SoilFileData.cNSetup", "hermes.Init"}, 60)
+	c07CropShareOfFixation(p, r)
 }
 
 // ---------------------------------------------------------------- R1 decay pairing
@@ -607,4 +608,94 @@ func c07CounterSigns(p *Prog, r *Report) {
 			}
 		}
 	}
+}
+
+// ---------------------------------------------------------------- the per-crop share of the fixed N
+
+// c07CropShareOfFixation: the per-crop record reports the N a crop fixed as "cumulative fixation minus what earlier
+// crops were credited".  The cumulative counter is never reset, so the base must ACCUMULATE the shares of all earlier
+// crops (base += previous share); a base that only remembers the previous crop's share credits the fixation of
+// every crop before it a second time, from the third crop of a run on.
+func c07CropShareOfFixation(p *Prog, r *Report) {
+	r.Rule("C07.R13", "per-crop share of the fixed N in the crop record: share = cumulative fixation − base with base += previous share (accumulating) before it, in the same block of the run routine", 1)
+	fi := p.Funcs["hermes.HermesSession.Run"]
+	if fi == nil {
+		r.Ob("fixation:crop-share", "-", false, "hermes.HermesSession.Run not found")
+		return
+	}
+	info := fi.Pkg.TypesInfo
+	isNFIXSUM := func(e ast.Expr) bool {
+		se, ok := ast.Unparen(e).(*ast.SelectorExpr)
+		if !ok || se.Sel.Name != "NFIXSUM" {
+			return false
+		}
+		sel, ok := info.Selections[se]
+		return ok && sel.Kind() == types.FieldVal
+	}
+	elem := func(e ast.Expr) (types.Object, string) {
+		ix, ok := ast.Unparen(e).(*ast.IndexExpr)
+		if !ok {
+			return nil, ""
+		}
+		id, ok := ix.X.(*ast.Ident)
+		if !ok {
+			return nil, ""
+		}
+		tv, has := info.Types[ix.Index]
+		if !has || tv.Value == nil {
+			return nil, ""
+		}
+		return info.Uses[id], tv.Value.ExactString()
+	}
+	n, good := 0, false
+	pos := "-"
+	ast.Inspect(fi.Decl.Body, func(m ast.Node) bool {
+		blk, ok := m.(*ast.BlockStmt)
+		if !ok {
+			return true
+		}
+		for i, st := range blk.List {
+			as, ok := st.(*ast.AssignStmt)
+			if !ok || len(as.Lhs) != 1 || len(as.Rhs) != 1 {
+				continue
+			}
+			// A[1] = NFIXSUM − A[0]
+			be, ok := ast.Unparen(as.Rhs[0]).(*ast.BinaryExpr)
+			if !ok || be.Op != token.SUB || !isNFIXSUM(be.X) {
+				continue
+			}
+			share, si := elem(as.Lhs[0])
+			base, bi := elem(be.Y)
+			if share == nil || share != base || si == bi {
+				continue
+			}
+			n++
+			pos = p.Pos(as.Pos())
+			// before it in the block: A[bi] = A[bi] + A[si]
+			for _, prev := range blk.List[:i] {
+				pa, ok := prev.(*ast.AssignStmt)
+				if !ok || len(pa.Lhs) != 1 || len(pa.Rhs) != 1 {
+					continue
+				}
+				lo, li := elem(pa.Lhs[0])
+				if lo != base || li != bi {
+					continue
+				}
+				good = false
+				if pa.Tok == token.ADD_ASSIGN {
+					if o, k := elem(pa.Rhs[0]); o == base && k == si {
+						good = true
+					}
+				} else if pb, ok := ast.Unparen(pa.Rhs[0]).(*ast.BinaryExpr); ok && pb.Op == token.ADD {
+					o1, k1 := elem(pb.X)
+					o2, k2 := elem(pb.Y)
+					if o1 == base && o2 == base && ((k1 == bi && k2 == si) || (k1 == si && k2 == bi)) {
+						good = true
+					}
+				}
+			}
+		}
+		return true
+	})
+	r.Ob("fixation:crop-share", pos, n == 1 && good, fmt.Sprintf("%d site(s) derive a crop's share of the cumulative fixation; the base accumulates the shares of all earlier crops: %v", n, good))
 }
